@@ -68,11 +68,19 @@ func (v *Vue) evalInclude(ctx VueContext, node *html.Node, vars map[string]any, 
 
 	assignStableSeenAttrs("include:"+name, compDom)
 
-	processedDom, err := v.evalTemplate(ctx, compDom, ctx.stack.EnvMap(), depth+1)
-	if err != nil {
-		return nil, fmt.Errorf("error in %s (included from %s): %w", name, ctx.FormatTemplateChain(), err)
+	childCtx := ctx.WithTemplate(name)
+
+	// A component whose root is a <template> element is evaluated by
+	// evalTemplate itself (required attributes, variables, children, or a
+	// further include). Its result is final: evaluating it once more would
+	// interpolate data values a second time.
+	if len(compDom) > 0 && compDom[0].Type == html.ElementNode && compDom[0].Data == "template" {
+		processedDom, err := v.evalTemplate(childCtx, compDom, ctx.stack.EnvMap(), depth+1)
+		if err != nil {
+			return nil, fmt.Errorf("error in %s (included from %s): %w", name, ctx.FormatTemplateChain(), err)
+		}
+		return processedDom, nil
 	}
 
-	childCtx := ctx.WithTemplate(name)
-	return v.evaluate(childCtx, processedDom, depth+1)
+	return v.evaluate(childCtx, compDom, depth+1)
 }
